@@ -60,4 +60,118 @@ results.append(dict(name="C07/static:no_shared_mutable_class_attribute", kind="s
 results.append(dict(name="C07/static:no_shared_mutable_default", kind="static", status="violation" if bad else "ok",
                     detail="; ".join(bad), input=bad or None))
 results.append(dict(name="C07/static:functions_scanned", kind="static", status="ok" if n_funcs > 100 else "undecided", detail="%d functions" % n_funcs))
+
+# ---- bounded stand-in (labelled bounded, never counted as proved): histories of length <= 2 on the REAL translator -----------------------
+# every history query H (metadata of each kind the executor keeps state for, succeeding or failing) followed by every metadata-free victim
+# query Q, on the same executor and on a new one, for the three back ends: Q's package must equal the one Q gives in a fresh process
+# (up to the numbering of generated names).  The deductive typestate argument above covers all histories; this covers the parts of the
+# state the contracts leave to assumed callees (e.g. how the default method types are installed).
+import re, subprocess, sys, tempfile
+DRIVER = r"""
+import ast, json, re, sys, tempfile, logging
+from pathlib import Path
+logging.disable(logging.CRITICAL)
+from func_adl import EventDataset
+class DS(EventDataset):
+    async def execute_result_async(self, a, title):
+        return a
+def exe_for(b):
+    if b == 'atlas':
+        from func_adl_xAOD.atlas.xaod.executor import atlas_xaod_executor as E
+    elif b == 'cms_aod':
+        from func_adl_xAOD.cms.aod.executor import cms_aod_executor as E
+    else:
+        from func_adl_xAOD.cms.miniaod.executor import cms_miniaod_executor as E
+    return E()
+def norm(files):
+    seen = {}
+    def repl(m):
+        t = m.group(0)
+        if t not in seen:
+            seen[t] = m.group(1) + '#' + str(len(seen))
+        return seen[t]
+    return {n: re.sub(r'\b([A-Za-z_]+?)(\d+)\b', repl, t) for n, t in sorted(files.items())}
+def run(exe, q):
+    try:
+        with tempfile.TemporaryDirectory() as d:
+            exe.write_cpp_files(exe.apply_ast_transformations(q), Path(d))
+            return ['ok', norm({f.name: f.read_text() for f in sorted(Path(d).iterdir()) if f.is_file()})]
+    except Exception as e:
+        return ['error', type(e).__name__]
+def build(spec):
+    ds = DS()
+    for md in spec.get('md', []):
+        ds = ds.MetaData(md)
+    ds = ds.SelectMany(spec['many']) if 'many' in spec else ds
+    return ds.Select(spec['select']).value()
+job = json.loads(sys.stdin.read())
+out = []
+for step in job['steps']:
+    if step['op'] == 'new':
+        exe = exe_for(job['backend'])
+    else:
+        out.append(run(exe, build(step['q'])))
+print(json.dumps(out))
+"""
+COLL = {"atlas": "e.TruthParticles('T')", "cms_aod": "e.Tracks('globalMuons')", "cms_miniaod": "e.Muons('slimmedMuons')"}
+TYPE = {"atlas": "xAOD::TruthParticle", "cms_aod": "reco::Track", "cms_miniaod": "pat::Muon"}
+
+
+def victims(b):
+    return [dict(many="lambda e: " + COLL[b], select="lambda p: {'pt': p.pt()}"),
+            dict(many="lambda e: " + COLL[b], select="lambda p: {'v': p.parent(0).pt()}") if b == "atlas" else
+            dict(many="lambda e: " + COLL[b], select="lambda p: {'v': p.eta() + p.pt()}")]
+
+
+def histories(b):
+    t = TYPE[b]
+    sel = dict(many="lambda e: " + COLL[b], select="lambda p: {'pt': p.pt()}")
+    return [
+        ("declares method types", dict(sel, md=[dict(metadata_type="add_method_type_info", type_string=t, method_name="pt", return_type="int"),
+                                                dict(metadata_type="add_method_type_info", type_string=t, method_name="parent", return_type="float"),
+                                                dict(metadata_type="add_method_type_info", type_string=t, method_name="eta", return_type="int")])),
+        ("declares method types, then fails", dict(many="lambda e: " + COLL[b], select="lambda p: {'pt': p.pt(), 'x': p.no_such.thing[1:2]}",
+                                                  md=[dict(metadata_type="add_method_type_info", type_string=t, method_name="pt", return_type="int")])),
+        ("injects code and a job script", dict(sel, md=[dict(metadata_type="inject_code", name="blk", body_includes=["a.h"], private_members=["int m;"]),
+                                                         dict(metadata_type="add_job_script", name="s1", script=["# line"], depends_on=[])])),
+        ("declares an enum and a function", dict(sel, md=[dict(metadata_type="define_enum", namespace="xAOD.Jet", name="Color", values=["Red", "Blue"]),
+                                                           dict(metadata_type="add_cpp_function", name="pt", include_files=[], arguments=["x"], code=["auto result = x;"],
+                                                                result_name="result", return_type="int")])),
+    ]
+
+
+def run_job(b, steps):
+    env = dict(os.environ, PYTHONPATH=REPO + ":" + os.path.dirname(os.path.dirname(os.path.abspath(__file__))), PYTHONDONTWRITEBYTECODE="1")
+    p = subprocess.run([sys.executable, "-c", DRIVER], input=json.dumps(dict(backend=b, steps=steps)), capture_output=True, text=True, env=env, timeout=600)
+    return json.loads(p.stdout.strip().split("\n")[-1])
+
+
+n_eval, bad_h, samples = 0, [], []
+try:
+    for b in ("atlas", "cms_aod", "cms_miniaod"):
+        ref = [run_job(b, [dict(op="new"), dict(op="q", q=v)])[0] for v in victims(b)]
+        for hname, h in histories(b):
+            for same in (True, False):
+                for k, v in enumerate(victims(b)):
+                    got = run_job(b, [dict(op="new"), dict(op="q", q=h)] + ([] if same else [dict(op="new")]) + [dict(op="q", q=v)])[-1]
+                    n_eval += 1
+                    if got != ref[k]:
+                        diff = ""
+                        if got[0] == "ok" and ref[k][0] == "ok":
+                            for fn in ref[k][1]:
+                                for la, lb in zip(ref[k][1][fn].splitlines(), got[1].get(fn, "").splitlines()):
+                                    if la != lb:
+                                        diff = "%s: fresh `%s` / after history `%s`" % (fn, la.strip(), lb.strip())
+                                        break
+                                if diff:
+                                    break
+                        bad_h.append("%s: after a query that %s (%s executor), `%s` translates differently: %s" % (
+                            b, hname, "same" if same else "new", v["select"], diff or "%s -> %s" % (ref[k][0], got[0])))
+                    elif len(samples) < 3:
+                        samples.append("%s / %s / %s executor / %s: identical" % (b, hname, "same" if same else "new", v["select"]))
+    results.append(dict(name="C07/bounded:history_of_two", kind="bounded", status="violation" if bad_h else "ok", detail="; ".join(bad_h[:3]), input=bad_h[:5] or None,
+                        bound="histories of length 2: 4 history queries (method types, method types + failure, inject/job script, enum + C++ function) x 2 victim queries "
+                              "x {same, new executor} x 3 back ends, compared with a fresh process", evaluations=n_eval, exhaustive=True, samples=samples))
+except Exception as e:  # the stand-in itself failed: decides nothing
+    results.append(dict(name="C07/bounded:history_of_two", kind="bounded", status="undecided", detail="stand-in crashed: %r" % (e,)))
 print(json.dumps(dict(results=results)))
